@@ -175,3 +175,45 @@ pub fn within_limits(q: &[f64; 6], from: &[f64; 6], to: &[f64; 6], eps: f64) -> 
     }
     r
 }
+
+// ---------------------------------------------------------------------------------------------
+// Independent link placement
+// ---------------------------------------------------------------------------------------------
+
+/// Link frames of an OPW arm, written from the published geometry (Brandstoetter et al. 2014 and
+/// the crate's parameter documentation), independently of the library's code: frame 1 sits c1
+/// above the base and turns about z; frame 2 is offset by (a1, b) and turns about y; frame 3 is
+/// c2 further along z and turns about y; frame 4 is offset by a2 along x and turns about z; frame
+/// 5 is c3 further along z and turns about y; frame 6 is c4 further along z and turns about z.
+/// Joint values are first multiplied by their sign correction and reduced by their offset. The
+/// base transform (if any) is applied in front; a tool transform does not move any link.
+pub fn independent_link_poses(spec: &crate::cell::CellSpec, q: &[f64; 6]) -> [Isometry3<f64>; 6] {
+    use nalgebra::{Translation3, UnitQuaternion, Vector3};
+    let p = &spec.params;
+    let (a1, a2, b, c1, c2, c3, c4) = (p[0], p[1], p[2], p[3], p[4], p[5], p[6]);
+    let th: [f64; 6] = std::array::from_fn(|i| q[i] * spec.signs[i] as f64 - spec.offsets[i]);
+    let rz = |a: f64| UnitQuaternion::from_axis_angle(&Vector3::z_axis(), a);
+    let ry = |a: f64| UnitQuaternion::from_axis_angle(&Vector3::y_axis(), a);
+    let step = |x: f64, y: f64, z: f64, r: UnitQuaternion<f64>| Isometry3::from_parts(Translation3::new(x, y, z), r);
+    let base = spec.base_tf.map(|b| b.iso()).unwrap_or_else(Isometry3::identity);
+    let f1 = base * step(0.0, 0.0, c1, rz(th[0]));
+    let f2 = f1 * step(a1, b, 0.0, ry(th[1]));
+    let f3 = f2 * step(0.0, 0.0, c2, ry(th[2]));
+    let f4 = f3 * step(a2, 0.0, 0.0, rz(th[3]));
+    let f5 = f4 * step(0.0, 0.0, c3, ry(th[4]));
+    let f6 = f5 * step(0.0, 0.0, c4, rz(th[5]));
+    [f1, f2, f3, f4, f5, f6]
+}
+
+/// Largest deviation (metres, radians) between the poses a kinematics object reports and the
+/// independent ones.
+pub fn placement_error(spec: &crate::cell::CellSpec, reported: &[Isometry3<f64>; 6], q: &[f64; 6]) -> (f64, f64) {
+    let own = independent_link_poses(spec, q);
+    let mut dt = 0.0f64;
+    let mut dr = 0.0f64;
+    for i in 0..6 {
+        dt = dt.max((own[i].translation.vector - reported[i].translation.vector).norm());
+        dr = dr.max(own[i].rotation.angle_to(&reported[i].rotation));
+    }
+    (dt, dr)
+}
